@@ -121,14 +121,14 @@ Qed.
 (** ---------- strings.Cut ---------- *)
 Lemma cut_at_app sep a b acc : Forall (fun c => c <> sep) a -> cut_at sep (a ++ sep :: b) acc = (rev acc ++ a, b, true).
 Proof.
-  revert acc. induction a as [|x t IH]; intros acc H; cbn [app cut_at].
+  revert acc. induction a as [|x t IH]; intros acc H; cbn [app cut_at]; rewrite ?frev_rev.
   - rewrite N.eqb_refl, app_nil_r. reflexivity.
   - apply Forall_cons_iff in H. destruct H as [Hx Ht]. destruct (N.eqb_spec x sep); [contradiction|].
     rewrite IH by exact Ht. cbn [rev]. rewrite <- app_assoc. reflexivity.
 Qed.
 Lemma cut_at_none sep a acc : Forall (fun c => c <> sep) a -> cut_at sep a acc = (rev acc ++ a, [], false).
 Proof.
-  revert acc. induction a as [|x t IH]; intros acc H; cbn [cut_at].
+  revert acc. induction a as [|x t IH]; intros acc H; cbn [cut_at]; rewrite ?frev_rev.
   - rewrite app_nil_r. reflexivity.
   - apply Forall_cons_iff in H. destruct H as [Hx Ht]. destruct (N.eqb_spec x sep); [contradiction|].
     rewrite IH by exact Ht. cbn [rev]. rewrite <- app_assoc. reflexivity.
@@ -155,14 +155,14 @@ Qed.
 Lemma parse_query_aux_app a b cur :
   Forall (fun c => c <> 38) a -> parse_query_aux (a ++ 38 :: b) cur = query_piece (rev cur ++ a) ++ parse_query_aux b [].
 Proof.
-  revert cur. induction a as [|x t IH]; intros cur H; cbn [app parse_query_aux].
+  revert cur. induction a as [|x t IH]; intros cur H; cbn [app parse_query_aux]; rewrite ?frev_rev.
   - rewrite app_nil_r. reflexivity.
   - apply Forall_cons_iff in H. destruct H as [Hx Ht]. destruct (N.eqb_spec x 38); [contradiction|].
     rewrite IH by exact Ht. cbn [rev]. rewrite <- app_assoc. reflexivity.
 Qed.
 Lemma parse_query_aux_last a cur : Forall (fun c => c <> 38) a -> parse_query_aux a cur = query_piece (rev cur ++ a).
 Proof.
-  revert cur. induction a as [|x t IH]; intros cur H; cbn [parse_query_aux].
+  revert cur. induction a as [|x t IH]; intros cur H; cbn [parse_query_aux]; rewrite ?frev_rev.
   - rewrite app_nil_r. reflexivity.
   - apply Forall_cons_iff in H. destruct H as [Hx Ht]. destruct (N.eqb_spec x 38); [contradiction|].
     rewrite IH by exact Ht. cbn [rev]. rewrite <- app_assoc. reflexivity.
@@ -302,8 +302,8 @@ Proof.
   replace (to_lower (s2b "otpauth")) with (s2b "otpauth") by reflexivity.
   (* the trailing-'?' special case does not apply: the query is non-empty and has no '?' *)
   assert (Forall (fun c => c <> 63) q) as Hq63 by (apply (avoid_forall bad_in_query); [exact Hqc|reflexivity]).
-  assert ((match rev (s2b "//" ++ kind ++ 47 :: esc ++ 63 :: q) with 63 :: _ => true | _ => false end) = false) as Hsuf.
-  { pose proof (rev_head_last (s2b "//" ++ kind ++ 47 :: esc ++ [63]) q 63 Hq Hq63) as R.
+  assert ((match frev (s2b "//" ++ kind ++ 47 :: esc ++ 63 :: q) with 63 :: _ => true | _ => false end) = false) as Hsuf.
+  { rewrite frev_rev. pose proof (rev_head_last (s2b "//" ++ kind ++ 47 :: esc ++ [63]) q 63 Hq Hq63) as R.
     replace ((s2b "//" ++ kind ++ 47 :: esc ++ [63]) ++ q) with (s2b "//" ++ kind ++ 47 :: esc ++ 63 :: q) in R
       by (repeat first [rewrite <- app_assoc | progress (cbn [app])]; reflexivity).
     destruct (rev (s2b "//" ++ kind ++ 47 :: esc ++ 63 :: q)) as [|y l]; [reflexivity|].
